@@ -36,6 +36,14 @@ ROWS = {
  "clean_quick": dict(acts=S("CvKnotInsert", "CvDegreeIncrease", "CvClean"), scenario="history", prep=1, depth=3, maxnpts=4, nodesize=1, props=["CleanProps"], wts='"none"'),
  "clean_thorough": dict(acts=S("CvKnotInsert", "CvDegreeIncrease", "CvClean"), scenario="history", prep=2, depth=4, maxnpts=4, nodesize=1, props=["CleanProps"], wts='"none"'),
  "misc_quick": dict(acts=S("CvCopy", "CvFraction"), maxnpts=4),
+ "deriv_quick": dict(acts=S("CvDerivate"), props=["DerivFormulaAgrees"]),
+ "deriv_thorough": dict(acts=S("CvDerivate"), props=["DerivFormulaAgrees"], degs="Degs4", maxnpts=7, wts='"none", "gen", "gen2"'),
+ "integ_quick": dict(acts=S("CvIntegrate"), props=["IntegralAgrees"], wts='"none"'),
+ "integ_thorough": dict(acts=S("CvIntegrate"), props=["IntegralAgrees"], wts='"none"', degs="Degs4", maxnpts=8, pts='"gen", "unit"'),
+ "fitcurve_quick": dict(acts=S("CvFitCurve"), wts='"none"', pts='"pos"', maxnpts=4, omax=4),
+ "fitcurve_thorough": dict(acts=S("CvFitCurve"), wts='"none"', pts='"pos"', maxnpts=5, omax=5, degs="DegsT", odegs="DegsT"),
+ "fitpoints_quick": dict(acts=S("CvFitPoints", "CvFitFunction"), pts='"pos"', maxnpts=4),
+ "fitpoints_thorough": dict(acts=S("CvFitPoints", "CvFitFunction"), pts='"pos"', maxnpts=6, degs="DegsT", wts='"none", "gen", "gen2"'),
 }
 
 for name, ov in ROWS.items():
@@ -67,4 +75,33 @@ CHECK_DEADLOCK FALSE
 """
     with open(os.path.join(SPEC, f"MC_Curve_{name}.cfg"), "w") as f:
         f.write(txt)
-print(len(ROWS), "cfg files written")
+MISC = {
+ "gen_quick": dict(acts=S("KvGen"), maxp=3, extra=3, memon=2, rich="FALSE", depth=1, props=["GenProps"]),
+ "gen_thorough": dict(acts=S("KvGen"), maxp=5, extra=6, memon=2, rich="FALSE", depth=1, props=["GenProps"]),
+ "memo_quick": dict(acts=S("MemoRequest"), maxp=1, extra=1, memon=4, rich="FALSE", depth=2, props=["MemoMonotone"]),
+ "memo_thorough": dict(acts=S("MemoRequest"), maxp=1, extra=1, memon=5, rich="FALSE", depth=3, props=["MemoMonotone"]),
+ "project_quick": dict(acts=S("GeoProject"), maxp=1, extra=1, memon=2, rich="FALSE", depth=1, props=[]),
+ "project_thorough": dict(acts=S("GeoProject"), maxp=1, extra=1, memon=2, rich="TRUE", depth=1, props=[]),
+ "intersect_quick": dict(acts=S("GeoIntersect"), maxp=1, extra=1, memon=2, rich="FALSE", depth=1, props=[]),
+ "intersect_thorough": dict(acts=S("GeoIntersect"), maxp=1, extra=1, memon=2, rich="TRUE", depth=1, props=[]),
+}
+for name, c in MISC.items():
+    props = "\n".join(f"PROPERTY {p}" for p in c["props"])
+    txt = f"""SPECIFICATION Spec
+CONSTANTS
+  ArgsOf <- MCArgs
+  InitHeaps <- MCInit
+  MaxDepth = {c['depth']}
+  Acts = {{{c['acts']}}}
+  MaxP = {c['maxp']}
+  MaxExtra = {c['extra']}
+  MemoN = {c['memon']}
+  GeoRich = {c['rich']}
+{props}
+ACTION_CONSTRAINT Log
+VIEW View
+CHECK_DEADLOCK FALSE
+"""
+    with open(os.path.join(SPEC, f"MC_Misc_{name}.cfg"), "w") as f:
+        f.write(txt)
+print(len(ROWS) + len(MISC), "cfg files written")
